@@ -721,6 +721,10 @@ func (env *SpecEnv) call(e *SExpr) SVal {
 			srt := fv.mathMapSort(mt)
 			fv.nilMapFacts(env.st, mt)
 			return SVal{T: MkDT(srt, fv.mapHas(env.st, x.T, mt), fv.mapVals(env.st, x.T, mt)), Typ: x.Typ, Math: true}
+		case "sameArray":
+			// two slices share their backing array
+			a, b := env.eval(args[0]), env.eval(args[1])
+			return SVal{T: And(Eq(Field(a.T, 0), Field(b.T, 0)), Not(Eq(Field(a.T, 0), IntLit(0)))), Typ: types.Typ[types.Bool]}
 		case "allocated":
 			x := env.eval(args[0])
 			return SVal{T: And(ILe(IntLit(0), x.T), ILt(x.T, env.st.nextRef)), Typ: types.Typ[types.Bool]}
